@@ -293,6 +293,16 @@ def c20_target(spec):
     def emit(lo, hi, th):
         for i in range(lo, hi):
             lvl = levels[i % 4] if spec.get('levels') else logging.WARNING
+            if spec.get('rich') and i % 3 == 1:
+                # what applications attach to records: context objects that cannot be pickled, exception info
+                if i % 2:
+                    lg.log(lvl, 'rec %d %d %s', th, i, pad, extra={'conn': threading.Lock(), 'request_no': i})
+                else:
+                    try:
+                        raise KeyError(i)
+                    except KeyError:
+                        lg.log(lvl, 'rec %d %d %s', th, i, pad, exc_info=True, extra={'handler': lambda: None})
+                continue
             lg.log(lvl, 'rec %d %d %s', th, i, pad)
 
     nthreads = spec.get('threads', 1)
